@@ -42,6 +42,7 @@ def verify_function(qualname, timeout_ms=10000, want_smt2=False):
         eng = Engine(fn, c, reg)
         obls = eng.run()
         out["lemmas_used"] = sorted(eng.used_lemmas)
+        out["notes"] = list(eng.notes)
         axioms = reg.axioms_for(c) if hasattr(reg, "axioms_for") else []
         for o in obls:
             r = solve.check(o, axioms=axioms, timeout_ms=timeout_ms, want_smt2=want_smt2)
